@@ -89,6 +89,9 @@ pub struct Node {
     pub apply_hold: bool,
     /// Highest Ready number this incarnation has reported persisted (async mode).
     pub last_notified: u64,
+    /// A snapshot the application has installed but whose `advance_apply_to` it has not issued yet
+    /// (the apply worker reports it; only in executions with `late_snapshot_report`).
+    pub pending_snap_report: Option<u64>,
 }
 
 impl Node {
@@ -200,6 +203,9 @@ pub struct Sim {
     /// Wall-clock watchdog for one execution; firing makes the execution inconclusive.
     pub deadline: Option<std::time::Instant>,
     pub timed_out: bool,
+    /// The apply worker, not the Ready loop, tells the library that an installed snapshot is
+    /// applied (`advance_apply_to(snapshot index)` comes later, like for entries).
+    pub late_snapshot_report: bool,
 }
 
 thread_local! {
@@ -245,6 +251,7 @@ impl Sim {
             total_calls: 0,
             deadline: Some(std::time::Instant::now() + std::time::Duration::from_secs(30)),
             timed_out: false,
+            late_snapshot_report: false,
         }
     }
 
@@ -279,6 +286,7 @@ impl Sim {
             apply_q: VecDeque::new(),
             apply_hold: false,
             last_notified: 0,
+            pending_snap_report: None,
             conf: Rc::new(Conf::default()),
             stopped: false,
             crash_mid_send: false,
@@ -440,6 +448,7 @@ impl Sim {
         n.apply_q.clear();
         n.apply_hold = false;
         n.last_notified = 0;
+        n.pending_snap_report = None;
         n.stage = Stage::Idle;
         n.crash_mid_send = false;
         n.snap_out.clear();
@@ -720,7 +729,15 @@ impl Sim {
     }
 
     fn do_apply(&mut self, v: usize, k: usize) -> bool {
-        if !self.nodes[v].idle() || self.nodes[v].apply_q.is_empty() || self.nodes[v].apply_hold {
+        if !self.nodes[v].idle() || self.nodes[v].apply_hold {
+            return false;
+        }
+        if let Some(si) = self.nodes[v].pending_snap_report.take() {
+            self.mon.stats.inc("app.late_snapshot_reports");
+            self.call(v, Op::AdvanceApplyTo(si), |raw| raw.advance_apply_to(si), |_| Res::Unit);
+            return true;
+        }
+        if self.nodes[v].apply_q.is_empty() {
             return false;
         }
         let mut last = 0;
@@ -933,12 +950,16 @@ impl Sim {
                     n.apply_q.extend(committed);
                     // the application installed the snapshot when it wrote the Ready: report it
                     if let Some(si) = snap_index {
-                        self.call(
-                            v,
-                            Op::AdvanceApplyTo(si),
-                            |raw| raw.advance_apply_to(si),
-                            |_| Res::Unit,
-                        );
+                        if self.late_snapshot_report {
+                            self.nodes[v].pending_snap_report = Some(si);
+                        } else {
+                            self.call(
+                                v,
+                                Op::AdvanceApplyTo(si),
+                                |raw| raw.advance_apply_to(si),
+                                |_| Res::Unit,
+                            );
+                        }
                     }
                 }
                 _ => {
@@ -987,12 +1008,16 @@ impl Sim {
                     self.handle_light(v, light, true);
                     if let Some(si) = snap_index {
                         if self.nodes[v].up() {
-                            self.call(
-                                v,
-                                Op::AdvanceApplyTo(si),
-                                |raw| raw.advance_apply_to(si),
-                                |_| Res::Unit,
-                            );
+                            if self.late_snapshot_report {
+                                self.nodes[v].pending_snap_report = Some(si);
+                            } else {
+                                self.call(
+                                    v,
+                                    Op::AdvanceApplyTo(si),
+                                    |raw| raw.advance_apply_to(si),
+                                    |_| Res::Unit,
+                                );
+                            }
                         }
                     }
                 }
